@@ -1,0 +1,199 @@
+//go:build verif
+
+package xsrftoken
+
+import "time"
+
+// Contracts, spec functions and lemma harnesses for the deductive verifier in /verif (govc).
+// This file is compiled only with -tags verif; it adds no behaviour to the package.
+//
+// Property C57: XSRF tokens are bound to key, user, action and time window.
+//
+// Time model: a time.Time is viewed as its wall-clock instant in int64 nanoseconds since 1970,
+// nanos(t) = t.UnixNano() (the real accessor bodies of package time are executed). The trusted
+// contracts of time.Unix, Time.Sub, Time.Add, Time.After (in /verif/stdlib/xsrf.contracts) speak
+// about this view; they hold for times whose instant is representable in an int64 (years
+// 1678..2262, inNanoRange) and, for Sub/After, when not both operands carry a monotonic reading
+// (time.Unix results never do).
+
+// wellFormed: the documented range of Time.Nanosecond ([0, 999999999]); a symbolic time.Time is
+// an arbitrary triple of words, so this representation invariant is stated where it is needed.
+//
+//@ pure
+func wellFormed(t time.Time) bool { return 0 <= t.Nanosecond() && t.Nanosecond() <= 999999999 }
+
+// inNanoRange: MinInt64 <= t.Unix()*1e9 + t.Nanosecond() <= MaxInt64 over the integers
+// (MinInt64 = -9223372037*1e9 + 145224192, MaxInt64 = 9223372036*1e9 + 854775807).
+//
+//@ pure
+func inNanoRange(t time.Time) bool {
+	return (t.Unix() > -9223372037 || (t.Unix() == -9223372037 && t.Nanosecond() >= 145224192)) &&
+		(t.Unix() < 9223372036 || (t.Unix() == 9223372036 && t.Nanosecond() <= 854775807))
+}
+
+//@ pure
+func nanos(t time.Time) int64 { return t.UnixNano() }
+
+// ---------------------------------------------------------------------------
+// The window of the property statement, written over the integers without any subtraction:
+// a token with issue time `issue` (ns) is inside its window at check time `now` (ns) iff
+//     issue - 1 minute <= now  &&  now < issue + timeout.
+// int64 sums that leave the int64 range are resolved by their mathematical meaning.
+
+// geDiff: now >= issue - d over the integers, for d >= 0.
+//
+//@ pure
+func geDiff(now, issue, d int64) bool {
+	lo := issue - d
+	if issue < 0 && lo >= 0 {
+		return true // issue - d < MinInt64 <= now
+	}
+	return now >= lo
+}
+
+// ltSum: now < issue + timeout over the integers.
+//
+//@ pure
+func ltSum(now, issue, timeout int64) bool {
+	hi := issue + timeout
+	if issue >= 0 && timeout >= 0 && hi < 0 {
+		return true // issue + timeout > MaxInt64 >= now
+	}
+	if issue < 0 && timeout < 0 && hi >= 0 {
+		return false // issue + timeout < MinInt64 <= now
+	}
+	return now < hi
+}
+
+//@ pure
+func inWindow(now, issue, timeout int64) bool {
+	return geDiff(now, issue, 60000000000) && ltSum(now, issue, timeout)
+}
+
+// The two tests of validTokenAtTime as int64 arithmetic. satSub is the saturating difference that
+// Time.Sub is documented to return; passesChecks says which check times survive the two tests:
+// not expired (now - issue < timeout, saturating) and not more than one minute in the future
+// (issue <= now + 1 min; callers keep now + 1 min inside int64).
+//
+//@ pure
+func satSub(a, b int64) int64 {
+	d := a - b
+	if a >= 0 && b < 0 && d < 0 {
+		return 9223372036854775807
+	}
+	if a < 0 && b >= 0 && d >= 0 {
+		return -9223372036854775808
+	}
+	return d
+}
+
+//@ pure
+func passesChecks(now, issue, timeout int64) bool {
+	return satSub(now, issue) < timeout && !(issue > now+60000000000)
+}
+
+// lemmaWindowInt: for ALL int64 check times (up to MaxInt64 - 1 min), issue times and timeouts
+// (negative and extreme ones included) the two tests accept exactly the window of the property.
+//
+//@ lemma
+//@ requires n <= 9223372036854775807 - 60000000000
+//@ ensures passesChecks(n, issue, timeout) <==> inWindow(n, issue, timeout)
+func lemmaWindowInt(n int64, issue int64, timeout int64) (ok bool) {
+	return true
+}
+
+// lemmaWindowChecks: the two tests, performed with the real time package calls on a time.Time
+// built like validTokenAtTime builds it, accept exactly passesChecks.
+//
+//@ lemma
+//@ requires wellFormed(now) && inNanoRange(now) && nanos(now) <= 9223372036854775807 - 60000000000
+//@ ensures ok <==> passesChecks(nanos(now), issue, int64(timeout))
+func lemmaWindowChecks(now time.Time, issue int64, timeout time.Duration) (ok bool) {
+	issueTime := time.Unix(0, issue)
+	if now.Sub(issueTime) >= timeout {
+		return false
+	}
+	if issueTime.After(now.Add(1 * time.Minute)) {
+		return false
+	}
+	return true
+}
+
+// milliOf: the issue time in milliseconds that generateTokenAtTime derives from a time in ns
+// ("round time up and convert to milliseconds").
+//
+//@ pure
+func milliOf(n int64) int64 { return (n + 1000000 - 1) / 1000000 }
+
+// For a generation time from 1970 up to the year 2262 the millisecond value is non-negative and
+// small enough for m*1e6 (the issue time in ns recomputed by validTokenAtTime) to stay in int64.
+//
+//@ lemma
+//@ requires 0 <= n && n <= 9223372036853000000
+//@ ensures 0 <= m && m <= 9223372036853
+func lemmaMilliRange(n int64) (m int64) {
+	return milliOf(n)
+}
+
+// ---------------------------------------------------------------------------
+// validTokenAtTime.
+//
+// Ghost counters record what the calls did: `parsed` is 1 iff ParseInt accepted the text after the
+// last ':' (then `millis` is its value); `issueNs` is the int64 nanosecond view of the issue time
+// that is compared with `now`; `regen` counts the regeneration of the expected token; `match` is 1
+// iff the constant-time comparison reported equality.
+//
+// Postconditions (the property's window clause): the function returns true exactly when the
+// token's suffix parses, the check time passes the window tests for the issue time issueNs, and the
+// token equals the token regenerated for (key, userID, actionID) at that issue time; the
+// regeneration and comparison happen exactly when the suffix parses and the window tests pass;
+// issueNs is millis*1e6 (as int64 product). Call-site assertions: the text parsed is the text
+// after the last ':' (base 10, 64 bits); the regeneration gets the function's own key, userID and
+// actionID and a time whose nanosecond view is millis*1e6; the comparison is between the whole
+// token and the regenerated token. By lemmaWindowInt, passesChecks is the window
+// [issue - 1 min, issue + timeout) of the property.
+//
+//@ func validTokenAtTime(token, key, userID, actionID, now, timeout) (r)
+//@   requires len(key) > 0
+//@   requires wellFormed(now) && inNanoRange(now) && nanos(now) <= 9223372036854775807 - 60000000000
+//@   ghost parsed += 1 after call ParseInt when $r1 == nil
+//@   ghost millis += $r0 after call ParseInt
+//@   ghost issueNs += nanos($u) at call Sub
+//@   ghost regen += 1 at call generateTokenAtTime
+//@   ghost match += 1 after call ConstantTimeCompare when $r0 == 1
+//@   assert at call ParseInt: 0 <= sep && sep < len(token) && token[sep] == ':' && $s == token[sep+1:] && $base == 10 && $bitSize == 64
+//@   assert at call ParseInt: forall i int :: sep < i && i < len(token) ==> token[i] != ':'
+//@   assert at call Unix: $sec == 0 && $nsec == millis*1000000 && int64(ghost(millis)) == millis && ghost(parsed) == 1
+//@   assert at call Sub: $t == now && $u == issueTime
+//@   assert at call After: $t == issueTime
+//@   assert at call Add: $t == now && int64($d) == 60000000000
+//@   assert at call generateTokenAtTime: $key == key && $userID == userID && $actionID == actionID
+//@   assert at call generateTokenAtTime: $now == issueTime && nanos($now) == millis*1000000 && nanos($now) == int64(ghost(issueNs))
+//@   assert at call ConstantTimeCompare: string($x) == token && string($y) == expected && ghost(regen) == 1
+//@   ensures r <==> ghost(match) == 1
+//@   ensures ghost(match) == 1 ==> ghost(regen) == 1
+//@   ensures ghost(regen) == 1 ==> ghost(parsed) == 1
+//@   ensures ghost(regen) == 1 ==> satSub(nanos(now), int64(ghost(issueNs))) < int64(timeout)
+//@   ensures ghost(regen) == 1 ==> !(int64(ghost(issueNs)) > nanos(now)+60000000000)
+//@   ensures ghost(parsed) == 1 && passesChecks(nanos(now), int64(ghost(issueNs)), int64(timeout)) ==> ghost(regen) == 1
+//@   ensures ghost(parsed) == 1 ==> int64(ghost(issueNs)) == int64(ghost(millis))*1000000
+//@   ensures ghost(regen) == 0 || ghost(regen) == 1
+//@   allocates
+
+// generateTokenAtTime: does not panic for a non-empty key; the millisecond issue time is
+// milliOf(now.UnixNano()); the same value goes into the MAC input and into the clear-text suffix;
+// the MAC is keyed with `key`, the escaping is applied to userID and actionID, the MAC is fed
+// "%s:%s:%d" of three arguments the last of which is the issue time; the result is "%s:%d" of the
+// base64 text of the MAC sum and the issue time.
+//
+//@ func generateTokenAtTime(key, userID, actionID, now) (r)
+//@   requires len(key) > 0
+//@   assert at call clean#1: $s == userID
+//@   assert at call clean#2: $s == actionID
+//@   assert at call New: string($key) == key
+//@   assert at call Fprintf: $w == h && $format == "%s:%s:%d" && len($a) == 3 && hastype($a[0], string) && hastype($a[1], string)
+//@   assert at call Fprintf: hastype($a[2], int64) && $a[2].(int64) == milliOf(nanos(now))
+//@   assert at call EncodeToString: string($src) == tok
+//@   assert at call Sprintf: $format == "%s:%d" && len($a) == 2 && hastype($a[0], string) && $a[0].(string) == tok
+//@   assert at call Sprintf: hastype($a[1], int64) && $a[1].(int64) == milliOf(nanos(now))
+//@   allocates
